@@ -1289,7 +1289,10 @@ impl ThreadInternal for Thread {
                         let mut context = context.borrow_mut();
                         context.stack.clear();
                     }
-                    let _ = context.exit_scope();
+                    if let Ok(mut context) = context.exit_scope() {
+                        // Remove the dummy value that was pushed in place of the function
+                        context.stack.pop();
+                    }
                     Ok(result).into()
                 }
                 Some(fut) => Pin::new(fut).poll(cx),
